@@ -68,7 +68,7 @@ func c08Corpus(seed uint64) [][]byte {
 	return out
 }
 
-var c08Vals6 = []uint32{0, 1, 0, 0, 0x7fffffff, 0xffffffff}
+var c08Vals6 = []uint32{0, 1, 0, 0, 0x7fffffff, 0xffffffff, 0x20000000, 0x20000001, 0x40000000, 0x10000000, 0x80000000, 0x15555556}
 
 func c08Mutate(body []byte, f vfFault) []byte {
 	b := append([]byte(nil), body...)
@@ -83,8 +83,8 @@ func c08Mutate(body []byte, f vfFault) []byte {
 			n := binary.BigEndian.Uint32(b[pos:])
 			var vi int
 			fmt.Sscanf(f.S, "%d", &vi)
-			v := c08Vals6[vi%6]
-			switch vi % 6 {
+			v := c08Vals6[vi%len(c08Vals6)]
+			switch vi % len(c08Vals6) {
 			case 2:
 				v = n - 1
 			case 3:
@@ -131,7 +131,7 @@ func c08Gen(class string, seed uint64, tier string) *vfScenario {
 		case x < 30:
 			f.A, f.B = 0, int64(rng.IntN(120))
 		case x < 75:
-			f.A, f.B, f.S = 1, int64(rng.IntN(120)), fmt.Sprint(rng.IntN(6))
+			f.A, f.B, f.S = 1, int64(rng.IntN(120)), fmt.Sprint(rng.IntN(len(c08Vals6)))
 		case x < 90:
 			f.A, f.B = 2, int64(rng.IntN(256))
 		default:
@@ -531,7 +531,7 @@ func c08DecodeEnum(r *vfRun) {
 		}
 	case 1:
 		for pos := 0; pos+4 <= len(item); pos++ {
-			for vi := 0; vi < 6; vi++ {
+			for vi := 0; vi < len(c08Vals6); vi++ {
 				if !try(vfFault{A: 1, B: int64(pos), S: fmt.Sprint(vi)}) {
 					return
 				}
